@@ -38,6 +38,9 @@ func c18Inputs(tier string) []c18Input {
 			ins = append(ins, c18Input{Name: fmt.Sprintf("error-kind%d-after-line-%d", bi, pos), Text: t, FailAt: -1})
 		}
 	}
+	// records with notes (the consumer keeps the nodes: their notes must still be theirs when the stream is over)
+	ins = append(ins, c18Input{Name: "three-records-with-notes", Text: "a:\n  # place: home\n  # mood: fine\n  x: 1\nb:\n  # place: office\n  y: 2\nc:\n  # free text\n  z: 3\n", FailAt: -1})
+	ins = append(ins, c18Input{Name: "notes-then-error", Text: "a:\n  # place: home\n  x: 1\nb:\n  # place: office\n  nosep\n", FailAt: -1})
 	// two and three errors
 	ins = append(ins, c18Input{Name: "two-errors", Text: "a:\n  nosep\n  x: 1\nb:\n  q: abc\n", FailAt: -1})
 	ins = append(ins, c18Input{Name: "three-errors", Text: "a:\n  nosep\n  q: abc\n  alsonosep\nb:\n  y: 1\n", FailAt: -1})
@@ -68,6 +71,14 @@ func c18Inputs(tier string) []c18Input {
 	return ins
 }
 
+func c18Node(n *shared.ParserNode) string {
+	s := "node:" + n.Header + fmt.Sprint(n.Elements)
+	if n.Metadata != nil {
+		s += fmt.Sprint(*n.Metadata)
+	}
+	return s
+}
+
 func (in c18Input) reader() io.Reader {
 	if in.FailAt >= 0 {
 		return &faultReader{data: []byte(in.Text), FailAt: in.FailAt}
@@ -81,7 +92,7 @@ func c18Reference(in c18Input) (events []string, finalErr string) {
 		if err != nil {
 			return true, err
 		}
-		events = append(events, "node:"+n.Header+fmt.Sprint(n.Elements))
+		events = append(events, c18Node(n)) // snapshot at callback time
 		return false, nil
 	}
 	var err error
@@ -149,7 +160,7 @@ func c18RunModel(x *Exec, in c18Input, policy int) c18Obs {
 		if strings.HasPrefix(e, "node#") {
 			var k int
 			fmt.Sscanf(e, "node#%d", &k)
-			o.Events[i] = "node:" + kept[k].Header + fmt.Sprint(kept[k].Elements)
+			o.Events[i] = c18Node(kept[k])
 		}
 	}
 	o.Deadlock = s.Deadlock
@@ -179,7 +190,7 @@ func c18RunReal(in c18Input, policy int, limit time.Duration) (events []string, 
 			if strings.HasPrefix(e, "node#") {
 				var k int
 				fmt.Sscanf(e, "node#%d", &k)
-				ev[i] = "node:" + keptReal[k].Header + fmt.Sprint(keptReal[k].Elements)
+				ev[i] = c18Node(keptReal[k])
 			}
 		}
 		return ev
